@@ -9,6 +9,8 @@
                       OutOfFuel   a loop ran for more iterations than the fuel given
      go_index l i   l[i] of a slice/string held as list Z
      go_slice_from  l[i:]
+     go_update l i v  l[i] = v;  go_slice l i j  l[i:j];  go_copy, go_make, go_splice, go_zeros
+     go_buf_*       the methods of bytes.Buffer on the list of its unread bytes
      go_quot/go_rem integer / and % (truncated, as in Go); Panic when the divisor is 0
      go_shift_count a signed shift count: Panic when negative
      frag W V       result of a fragment of a function body (Returned k w | Reached v)
@@ -70,6 +72,55 @@ Fixpoint go_loop {St R : Type} (fuel : nat) (body : St -> outcome (step St R)) (
       | OutOfFuel => OutOfFuel
       end
   end.
+
+(* ---- memory: a slice / array is the list of its elements (aliasing is excluded by the
+   translator, see the RULES in tools/gofunc/main.go) *)
+Definition go_zeros (n : Z) : list Z := repeat 0 (Z.to_nat n).
+
+(* make([]T, n) *)
+Definition go_make (n : Z) : outcome (list Z) := if n <? 0 then Panic else Ok (go_zeros n).
+
+Fixpoint list_upd (l : list Z) (k : nat) (v : Z) : list Z :=
+  match l, k with
+  | [], _ => []
+  | _ :: r, O => v :: r
+  | y :: r, S k' => y :: list_upd r k' v
+  end.
+
+(* s[i] = v *)
+Definition go_update (l : list Z) (i v : Z) : outcome (list Z) :=
+  if (0 <=? i) && (i <? go_len l) then Ok (list_upd l (Z.to_nat i) v) else Panic.
+
+(* s[i:j]; beyond len s the result would depend on cap s, which a list does not record: Panic *)
+Definition go_slice (l : list Z) (i j : Z) : outcome (list Z) :=
+  if (0 <=? i) && (i <=? j) && (j <=? go_len l)
+  then Ok (firstn (Z.to_nat (j - i)) (skipn (Z.to_nat i) l)) else Panic.
+
+(* the window starting at i of l replaced by w (w has the length of the window) *)
+Definition go_splice (l : list Z) (i : Z) (w : list Z) : list Z :=
+  firstn (Z.to_nat i) l ++ w ++ skipn (Z.to_nat i + length w) l.
+
+(* copy(dst, src): the new dst and the number of elements copied *)
+Definition go_copy (dst src : list Z) : list Z * Z :=
+  let n := Nat.min (length dst) (length src) in
+  (firstn n src ++ skipn n dst, Z.of_nat n).
+
+(* ---- bytes.Buffer as the list of its unread bytes (documented behaviour of the standard
+   library type; results in the order: Go results, new buffer, new contents of p).
+   eof = the code of io.EOF. *)
+Definition go_buf_write (b p : list Z) : Z * Z * list Z := (go_len p, 0, b ++ p).
+Definition go_buf_write_byte (b : list Z) (c : Z) : Z * list Z := (0, b ++ [c]).
+Definition go_buf_read (eof : Z) (b p : list Z) : Z * Z * list Z * list Z :=
+  match b, p with
+  | [], _ :: _ => (0, eof, b, p)
+  | _, _ => let '(p', n) := go_copy p b in (n, 0, skipn (Z.to_nat n) b, p')
+  end.
+Definition go_buf_read_byte (eof : Z) (b : list Z) : Z * Z * list Z :=
+  match b with
+  | [] => (0, eof, b)
+  | c :: r => (c, 0, r)
+  end.
+Definition go_buf_bytes (b : list Z) : list Z := b.
 
 (* result of a fragment (tools/gofunc "F#prefix": the first statements of a function body) *)
 Inductive frag (W V : Type) : Type :=
@@ -176,3 +227,36 @@ Proof.
   - eauto.
   - eauto.
 Qed.
+
+(* ---- memory lemmas *)
+Lemma list_upd_length l k v : length (list_upd l k v) = length l.
+Proof. revert k. induction l as [|x l IH]; intros [|k]; cbn; try reflexivity. f_equal. apply IH. Qed.
+
+Lemma nth_list_upd_same l k v d : (k < length l)%nat -> nth k (list_upd l k v) d = v.
+Proof. revert k. induction l as [|x l IH]; intros [|k] H; cbn in *; try lia; try reflexivity. apply IH. lia. Qed.
+
+Lemma nth_list_upd_other l k j v d : j <> k -> nth j (list_upd l k v) d = nth j l d.
+Proof.
+  revert k j. induction l as [|x l IH]; intros [|k] [|j] H; cbn; try reflexivity; try congruence.
+  apply IH. congruence.
+Qed.
+
+Lemma go_update_ok l i v : 0 <= i < go_len l -> go_update l i v = Ok (list_upd l (Z.to_nat i) v).
+Proof.
+  intros H. unfold go_update.
+  destruct (Z.leb_spec 0 i); [|lia]. destruct (Z.ltb_spec i (go_len l)); [|lia]. reflexivity.
+Qed.
+
+Lemma go_slice_ok l i j : 0 <= i <= j -> j <= go_len l ->
+  go_slice l i j = Ok (firstn (Z.to_nat (j - i)) (skipn (Z.to_nat i) l)).
+Proof.
+  intros H1 H2. unfold go_slice.
+  destruct (Z.leb_spec 0 i); [|lia]. destruct (Z.leb_spec i j); [|lia].
+  destruct (Z.leb_spec j (go_len l)); [|lia]. reflexivity.
+Qed.
+
+Lemma go_make_ok n : 0 <= n -> go_make n = Ok (go_zeros n).
+Proof. intros H. unfold go_make. destruct (Z.ltb_spec n 0); [lia|reflexivity]. Qed.
+
+Lemma go_zeros_length n : length (go_zeros n) = Z.to_nat n.
+Proof. apply repeat_length. Qed.
